@@ -31,6 +31,14 @@ Atom(v) == v[2]
 Kids(v) == v[3]
 
 ScalarKinds == {"none", "str", "bool", "int", "float", "enum"}
+(* dict keys: strings -- and a member of a str-mixin enum IS a str instance, so it is accepted as a key and kept; json writes *)
+(* its string content, == and hash agree with that content, so as a KEY it is the string (KC: keys reduced to their content)  *)
+StrEnumKeys == {N("enum", "me.E4.A", <<>>)}
+IsStrKey(k) == Kind(k) = "str" \/ k \in StrEnumKeys
+KeyStr(k) == IF k = N("enum", "me.E4.A", <<>>) THEN "a" ELSE Atom(k)
+RECURSIVE KC(_)
+KC(v) == N(Kind(v), Atom(v), [i \in DOMAIN Kids(v) |-> IF Kind(v) \in {"dict", "fdict"} /\ i % 2 = 1
+                                                      THEN N("str", KeyStr(Kids(v)[i]), <<>>) ELSE KC(Kids(v)[i])])
 IsRej(v) == Kind(v) = "reject"
 Rej(path) == N("reject", path, <<>>)
 
@@ -45,7 +53,7 @@ Norm(path, v) ==
          LET ks == Kids(v)
              cs == [i \in DOMAIN ks |->
                       IF i % 2 = 1
-                      THEN (IF Kind(ks[i]) = "str" THEN ks[i] ELSE Rej(path \o "<key>"))
+                      THEN (IF IsStrKey(ks[i]) THEN ks[i] ELSE Rej(path \o "<key>"))
                       ELSE Norm(path \o "{}", ks[i])] IN
          IF \E i \in DOMAIN cs : IsRej(cs[i]) THEN FirstRej(cs) ELSE N("fdict", "", cs)
     [] Kind(v) \in ScalarKinds \cup {"task"} -> v          \* a task object normalised its own fields when it was built
@@ -57,13 +65,13 @@ Accepts(v) == ~IsRej(Norm("p", v))
 JStr(s) == N("jstr", s, <<>>)
 JTrue == N("jbool", "True", <<>>)
 ReservedKeys == {"_is_task", "_is_enum", "_is_dict"}
-HasReservedKey(v) == \E i \in DOMAIN Kids(v) : i % 2 = 1 /\ Atom(Kids(v)[i]) \in ReservedKeys
+HasReservedKey(v) == \E i \in DOMAIN Kids(v) : i % 2 = 1 /\ KeyStr(Kids(v)[i]) \in ReservedKeys
 
 EnumClass(a) == CHOOSE c \in {"me.E1", "me.E2", "me.E3", "me.E4"} : \E i \in 1..Len(a) : SubSeq(a, 1, i) = c
 EnumMember(a) == SubSeq(a, Len(EnumClass(a)) + 2, Len(a))
 
 RECURSIVE Ser(_)
-SerPairs(ks) == [i \in DOMAIN ks |-> IF i % 2 = 1 THEN JStr(Atom(ks[i])) ELSE Ser(ks[i])]
+SerPairs(ks) == [i \in DOMAIN ks |-> IF i % 2 = 1 THEN JStr(KeyStr(ks[i])) ELSE Ser(ks[i])]
 Ser(v) ==
   CASE Kind(v) = "task" ->
          N("jobj", "", <<JStr("_is_task"), JTrue, JStr("__class__"), JStr(Atom(v))>>
@@ -145,7 +153,8 @@ Atoms == { N("none", "None", <<>>), N("str", "a", <<>>), N("str", "", <<>>), N("
 SmallAtoms == { N("str", "a", <<>>), N("int", "1", <<>>), N("bool", "True", <<>>), N("enum", "me.E1.A", <<>>) }
 Unsupported == { N("set", "", <<>>), N("bytes", "b", <<>>), N("obj", "", <<>>) }
 KeyNodes == { N("str", "k", <<>>), N("str", "_is_task", <<>>), N("str", "__class__", <<>>), N("str", "_is_enum", <<>>),
-              N("str", "name", <<>>), N("int", "1", <<>>), N("str", "_is_dict", <<>>), N("str", "items", <<>>) }
+              N("str", "name", <<>>), N("int", "1", <<>>), N("str", "_is_dict", <<>>), N("str", "items", <<>>),
+              N("enum", "me.E4.A", <<>>), N("enum", "me.E1.A", <<>>) }       \* enum members as keys: str-mixin (a str) / plain (rejected)
 Types == {"m1.T", "m2.T", "m1.TX", "m1.TSub", "m1.T_", "m1.T__V", "m1.M5", "m1.TE"}       \* same-named type in another module; prefix-named type and subclass; names with trailing / double underscore
 
 Seqs(S, n) == UNION {[1..k -> S] : k \in 0..n}
@@ -175,8 +184,8 @@ Cases == {<<ty, raw>> : ty \in Types, raw \in Raw2}
 (* ---- what TLC checks over the whole grammar ---- *)
 Accepted == {Build(c[1], <<c[2]>>) : c \in {x \in Cases : ~IsRej(Build(x[1], <<x[2]>>))}}
 
-P_RoundTrip == \A t \in Accepted : Deser(Ser(t)) = t                      \* hence Ser (the key) is injective
+P_RoundTrip == \A t \in Accepted : Deser(Ser(t)) = KC(t)                      \* hence Ser (the key) is injective
 P_NormIdempotent == \A c \in Cases : LET n == Norm("p", c[2]) IN IsRej(n) \/ Norm("p", n) = n
 P_DepsDefined == \A t \in Accepted : \A i \in DOMAIN DepsOf(t) : Kind(DepsOf(t)[i]) = "task"
-P_KeysDistinguishTypes == \A t1, t2 \in {x \in Accepted : Kids(x)[1] = N("int", "1", <<>>)} : Key(t1) = Key(t2) => t1 = t2
+P_KeysDistinguishTypes == \A t1, t2 \in {x \in Accepted : Kids(x)[1] = N("int", "1", <<>>)} : Key(t1) = Key(t2) => KC(t1) = KC(t2)
 =============================================================================
